@@ -865,6 +865,13 @@ class InstanceWriteProvider(BaseProvider):
         """
         path = prop.value
 
+        if path.namespace is None:
+            raise CIMError(
+                CIM_ERR_INVALID_PARAMETER,
+                _format("Reference property {0!A} association "
+                        "end point {1!A} has no namespace",
+                        prop.name, path))
+
         if path.host:
             raise CIMError(
                 CIM_ERR_INVALID_PARAMETER,
